@@ -1,949 +1,5 @@
-// hook module body (h5_runner): lives in `crate::query::runner::ipa_verif_h5`, has access to the
-// private `query::runner::{hybrid, reshard_tag}` modules and its own libtest entry point.
-//
-// C11 - a report submitted twice in one query is rejected wherever the copies land.
-//
-// The helpers' inputs are real length-delimited, HPKE-encrypted hybrid reports (one ciphertext per
-// helper and report, as a report collector submits them); a duplicate is the *same bytes* placed a
-// second (third) time into a generated shard's input at a generated position, consistently on the
-// three helpers. Three sub-checks:
-//   * `uniqueness_path`  - the exact decrypt -> `reshard_aad` -> `UniqueTagValidator` sequence of
-//     `Query::execute` (hybrid.rs lines "let stream = LengthDelimitedStream..." to
-//     "unique_encrypted_hybrid_reports.check_duplicates(&resharded_tags)?"), cut after the
-//     uniqueness check; every helper-shard finishes, so the oracle is an exact "iff":
-//     helper h / shard d returns Err(DuplicateBytes) iff two copies of one of h's ciphertexts are
-//     routed (by `UniqueTag::shard_picker`) to d.
-//   * `query_duplicates` - the whole `Query::execute` on every helper-shard with >= 1 duplicate
-//     set: on every helper the routed shard returns Err(DuplicateBytes), it has not sent a single
-//     MPC message (attribution has not started there), and no helper-shard returns Ok.
-//   * `query_execute_honest` - the whole query on pairwise distinct reports: no DuplicateBytes,
-//     every helper-shard returns Ok and the leader's histogram equals the plaintext attribution.
-
-use std::{
-    collections::{BTreeMap, BTreeSet, VecDeque},
-    panic::AssertUnwindSafe,
-    pin::Pin,
-    sync::{Arc, Mutex},
-    task::{Context as TaskCx, Poll},
-    time::Duration,
-};
-
-use bytes::Bytes;
-use futures::{FutureExt, Stream, StreamExt, TryStreamExt, stream::FuturesUnordered};
-use generic_array::GenericArray;
-use rand::{SeedableRng, rngs::StdRng};
-use serde_json::{Value, json};
-
-use super::{hybrid::Query as HybridQuery, reshard_tag::reshard_aad};
-use crate::{
-    error::{BoxError, Error},
-    ff::{
-        Serializable, U128Conversions,
-        boolean_array::{BA3, BA8, BA32},
-    },
-    helpers::{
-        BodyStream, HelperIdentity, LengthDelimitedStream,
-        in_memory_config::{DynStreamInterceptor, InspectContext},
-        query::{HybridQueryParams, QuerySize},
-        stream::TryFlattenItersExt,
-    },
-    hpke::{KeyPair, KeyRegistry},
-    ipa_verif::{
-        common::*,
-        mpc::{Row, RowKind, reconstruct3, reference_histogram},
-    },
-    protocol::{
-        context::{Context, ShardedContext},
-        hybrid::step::HybridStep,
-        step::ProtocolStep::Hybrid,
-    },
-    report::hybrid::{DEFAULT_KEY_ID, EncryptedHybridReport, HybridReport, UniqueBytes, UniqueTag, UniqueTagValidator},
-    secret_sharing::{
-        IntoShares,
-        replicated::{ReplicatedSecretSharing, semi_honest::AdditiveShare as Replicated},
-    },
-    seq_join::seq_join,
-    sharding::{ShardConfiguration, ShardIndex},
-    test_fixture::{TestWorld, TestWorldConfig, WithShards, hybrid::TestHybridRecord},
-};
-
-pub const LEVEL: &str = "exploration";
-
-type Tag = [u8; 16];
-
-// ------------------------------------------------------------------------------------------
-// case description
-// ------------------------------------------------------------------------------------------
-
-#[derive(Clone, Copy, Debug, PartialEq, Eq)]
-enum Path {
-    /// decrypt -> reshard_aad -> check_duplicates only
-    Uniqueness,
-    /// the whole `Query::execute`
-    Query,
-}
-
-#[derive(Clone, Debug)]
-struct Case {
-    shards: usize,
-    rows: Vec<Row>,
-    /// layout[s] = report indices in the order they appear in shard s's input (a report index that
-    /// occurs more than once over all shards is a duplicate set)
-    layout: Vec<Vec<usize>>,
-    query_sizes: Vec<usize>,
-    workers: usize,
-    active: u32,
-    /// [helper][shard]: (chunk size in bytes, 0 = one chunk; Pending pattern between chunks)
-    chunking: Vec<Vec<(usize, Vec<u8>)>>,
-    world_seed: u64,
-    enc_seed: u64,
-    timeout: Duration,
-}
-
-impl Case {
-    fn json(&self) -> Value {
-        json!({
-            "shards": self.shards, "n_reports": self.rows.len(), "layout": self.layout, "query_sizes": self.query_sizes,
-            "workers": self.workers, "active": self.active, "world_seed": self.world_seed.to_string(), "enc_seed": self.enc_seed.to_string(),
-            "chunking": self.chunking.iter().map(|per| per.iter().map(|(c, d)| json!([c, d])).collect::<Vec<_>>()).collect::<Vec<_>>(),
-            "rows": self.rows.iter().take(64).map(Row::json).collect::<Vec<_>>(),
-        })
-    }
-    /// report index -> number of copies over all shards
-    fn copies(&self) -> BTreeMap<usize, usize> {
-        let mut m = BTreeMap::new();
-        for r in self.layout.iter().flatten() {
-            *m.entry(*r).or_default() += 1;
-        }
-        m
-    }
-    fn dup_reports(&self) -> Vec<usize> {
-        self.copies().into_iter().filter(|(_, c)| *c >= 2).map(|(r, _)| r).collect()
-    }
-}
-
-fn to_record(r: &Row) -> TestHybridRecord {
-    match r.kind {
-        RowKind::Impression => TestHybridRecord::TestImpression { match_key: r.mk, breakdown_key: u32::from(r.bk()), key_id: DEFAULT_KEY_ID },
-        RowKind::Conversion => TestHybridRecord::TestConversion {
-            match_key: r.mk,
-            value: u32::from(r.value()),
-            key_id: DEFAULT_KEY_ID,
-            conversion_site_domain: "meta.com".to_string(),
-            timestamp: 100 + (r.mk & 0xffff),
-            epsilon: 0.0,
-            sensitivity: 0.0,
-        },
-    }
-}
-
-struct Encrypted {
-    registry: Arc<KeyRegistry<KeyPair>>,
-    /// [helper][report] = length-delimited encrypted report
-    bytes: Vec<Vec<Vec<u8>>>,
-    /// [helper][report] = the 16 bytes the helper uses as the uniqueness tag
-    tags: Vec<Vec<Tag>>,
-    /// [helper][report] = shard `UniqueTag::shard_picker` routes the tag to
-    routed: Vec<Vec<usize>>,
-    /// number of distinct reports whose tag equals the tag of another distinct report (expected 0)
-    tag_collisions: usize,
-}
-
-/// Encrypt every report once per helper.
-fn encrypt(case: &Case) -> Result<Encrypted, String> {
-    let mut rng = StdRng::seed_from_u64(case.enc_seed);
-    let registry = Arc::new(KeyRegistry::<KeyPair>::random(1, &mut rng));
-    let mut bytes: Vec<Vec<Vec<u8>>> = vec![vec![]; 3];
-    let mut tags: Vec<Vec<Tag>> = vec![vec![]; 3];
-    let mut routed: Vec<Vec<usize>> = vec![vec![]; 3];
-    for row in &case.rows {
-        let shares: [HybridReport<BA8, BA3>; 3] = to_record(row).share_with(&mut rng);
-        for (h, share) in shares.into_iter().enumerate() {
-            let mut buf: Vec<u8> = Vec::new();
-            share.delimited_encrypt_to(DEFAULT_KEY_ID, registry.as_ref(), &mut rng, &mut buf).map_err(|e| format!("encryption failed: {e}"))?;
-            // what the helper will see: the record without its 2-byte length prefix
-            let enc = EncryptedHybridReport::<BA8, BA3>::from_bytes(Bytes::copy_from_slice(&buf[2..])).map_err(|e| format!("own ciphertext does not parse: {e}"))?;
-            let tag = UniqueTag::from_unique_bytes(&enc);
-            routed[h].push(usize::from(tag.shard_picker(ShardIndex::from(case.shards as u32))));
-            tags[h].push(tag.unique_bytes());
-            bytes[h].push(buf);
-        }
-    }
-    // HPKE randomness makes the ciphertexts - and with them the 16 tag bytes - of distinct reports
-    // distinct; this is counted, not assumed: a collision does not discard the case (pairwise
-    // distinct reports must still not be rejected), it is reported in the class distribution
-    let mut collisions = 0;
-    for h in 0..3 {
-        let distinct: BTreeSet<&Tag> = tags[h].iter().collect();
-        collisions += tags[h].len() - distinct.len();
-        let distinct_bytes: BTreeSet<&Vec<u8>> = bytes[h].iter().collect();
-        if distinct_bytes.len() != bytes[h].len() {
-            return Err(format!("helper {h}: two separately encrypted reports are byte-identical"));
-        }
-    }
-    Ok(Encrypted { registry, bytes, tags, routed, tag_collisions: collisions })
-}
-
-// ------------------------------------------------------------------------------------------
-// input body with generated chunking / timing
-// ------------------------------------------------------------------------------------------
-
-struct ChunkStream {
-    chunks: VecDeque<Bytes>,
-    delays: Vec<u8>,
-    k: usize,
-    wait: u8,
-    armed: bool,
-}
-
-impl Stream for ChunkStream {
-    type Item = Result<Bytes, BoxError>;
-    fn poll_next(self: Pin<&mut Self>, cx: &mut TaskCx<'_>) -> Poll<Option<Self::Item>> {
-        let this = self.get_mut();
-        if !this.armed {
-            this.armed = true;
-            this.wait = if this.delays.is_empty() { 0 } else { this.delays[this.k % this.delays.len()] };
-        }
-        if this.wait > 0 {
-            this.wait -= 1;
-            cx.waker().wake_by_ref();
-            return Poll::Pending;
-        }
-        this.armed = false;
-        this.k += 1;
-        Poll::Ready(this.chunks.pop_front().map(Ok))
-    }
-}
-
-fn body(buf: Vec<u8>, chunk: usize, delays: &[u8]) -> BodyStream {
-    if chunk == 0 && delays.is_empty() {
-        return BodyStream::from(buf);
-    }
-    let all = Bytes::from(buf);
-    let size = if chunk == 0 { all.len().max(1) } else { chunk };
-    let mut chunks = VecDeque::new();
-    let mut at = 0;
-    while at < all.len() {
-        let end = (at + size).min(all.len());
-        chunks.push_back(all.slice(at..end));
-        at = end;
-    }
-    BodyStream::from_bytes_stream(ChunkStream { chunks, delays: delays.to_vec(), k: 0, wait: 0, armed: false })
-}
-
-// ------------------------------------------------------------------------------------------
-// interceptor + driver
-// ------------------------------------------------------------------------------------------
-
-#[derive(Default)]
-struct Net {
-    /// (sending helper, shard) -> gates of the first MPC chunks it sent
-    mpc_sent: BTreeMap<(usize, usize), Vec<String>>,
-    shard_msgs: usize,
-}
-
-fn helper_index(h: HelperIdentity) -> usize {
-    if h == HelperIdentity::ONE {
-        0
-    } else if h == HelperIdentity::TWO {
-        1
-    } else {
-        2
-    }
-}
-
-fn interceptor(net: Arc<Mutex<Net>>) -> DynStreamInterceptor {
-    crate::sync::Arc::new(move |ctx: &InspectContext, data: &mut Vec<u8>| {
-        let mut st = net.lock().unwrap();
-        match ctx {
-            InspectContext::ShardMessage { .. } => st.shard_msgs += 1,
-            InspectContext::MpcMessage { shard, source, gate, .. } => {
-                if !data.is_empty() {
-                    let v = st.mpc_sent.entry((helper_index(*source), shard.map_or(0, usize::from))).or_default();
-                    if v.len() < 4 {
-                        v.push(gate.as_ref().to_string());
-                    }
-                }
-            }
-        }
-    })
-}
-
-#[derive(Clone, Debug)]
-enum Out<T> {
-    Ok(T),
-    Err { variant: String, display: String },
-    Panic { loc: String, msg: String },
-}
-
-impl<T> Out<T> {
-    fn describe(&self) -> String {
-        match self {
-            Out::Ok(_) => "Ok".to_string(),
-            Out::Err { variant, display } => format!("Err({variant}: {display})"),
-            Out::Panic { loc, msg } => format!("panic at {loc}: {msg}"),
-        }
-    }
-    fn is_dup(&self) -> bool {
-        matches!(self, Out::Err { variant, .. } if variant == "DuplicateBytes")
-    }
-}
-
-type Outcomes<T> = Vec<Vec<Option<Out<T>>>>;
-
-fn error_variant(e: &Error) -> String {
-    let d = format!("{e:?}");
-    d.split(|c: char| !(c.is_alphanumeric() || c == '_')).next().unwrap_or("").to_string()
-}
-
-fn summary<T>(o: &Outcomes<T>) -> Value {
-    json!(o.iter().map(|per| per.iter().map(|o| o.as_ref().map_or("pending".to_string(), Out::describe)).collect::<Vec<_>>()).collect::<Vec<_>>())
-}
-
-/// Poll the helper-shard futures until `done(outcomes)`, all finished, or the timeout.
-async fn drive_until<'a, T, F>(futs: Vec<(usize, usize, F)>, shards: usize, timeout: Duration, done: &(dyn Fn(&Outcomes<T>) -> bool + 'a)) -> (Outcomes<T>, bool)
-where
-    F: std::future::Future<Output = Result<T, Error>> + 'a,
-    T: Clone,
-{
-    let mut outcomes: Outcomes<T> = vec![vec![None; shards]; 3];
-    let mut pending: FuturesUnordered<_> = futs
-        .into_iter()
-        .map(|(h, s, f)| async move {
-            let _ = take_last_panic();
-            let r = AssertUnwindSafe(f).catch_unwind().await;
-            let o = match r {
-                Ok(Ok(v)) => Out::Ok(v),
-                Ok(Err(e)) => Out::Err { variant: error_variant(&e), display: e.to_string() },
-                Err(p) => {
-                    let msg = panic_message(&p);
-                    let (loc, m2) = take_last_panic().unwrap_or_else(|| ("?".into(), msg.clone()));
-                    Out::Panic { loc: strip_repo_prefix(&loc), msg: if m2.is_empty() { msg } else { m2 } }
-                }
-            };
-            (h, s, o)
-        })
-        .collect();
-    let deadline = tokio::time::Instant::now() + timeout;
-    let mut timed_out = false;
-    loop {
-        match tokio::time::timeout_at(deadline, pending.next()).await {
-            Ok(Some((h, s, o))) => {
-                outcomes[h][s] = Some(o);
-                if done(&outcomes) {
-                    break;
-                }
-            }
-            Ok(None) => break,
-            Err(_) => {
-                timed_out = true;
-                break;
-            }
-        }
-    }
-    // cancelling helpers that hold unverified multiplications panics by design (drop guard)
-    let _ = catch(move || drop(pending));
-    (outcomes, timed_out)
-}
-
-/// The sequence `Query::execute` runs before attribution (query/runner/hybrid.rs, `execute`:
-/// `ctx.narrow(&Hybrid)`, the `LengthDelimitedStream` -> decrypt -> `UniqueTag` -> `take(sz)`
-/// stream, `reshard_aad(ctx.narrow(&HybridStep::ReshardByTag), seq_join(ctx.active_work(), stream),
-/// |ctx, _, tag| tag.shard_picker(ctx.shard_count()))`, `UniqueTagValidator::new(len)`,
-/// `check_duplicates(&resharded_tags)?`), replicated statement by statement. Returns the number
-/// of decrypted reports kept on this shard and the tags it was handed.
-async fn uniqueness_path<C: ShardedContext>(ctx: C, key_registry: Arc<KeyRegistry<KeyPair>>, query_size: QuerySize, input_stream: BodyStream) -> Result<(usize, Vec<Tag>), Error> {
-    let key_registry = &key_registry;
-    let ctx = ctx.narrow(&Hybrid);
-    let sz = usize::from(query_size);
-    let stream = LengthDelimitedStream::<EncryptedHybridReport<BA8, BA3>, _>::new(input_stream)
-        .map_err(Into::into)
-        .try_flatten_iters()
-        .map(|enc_report_res| async move {
-            enc_report_res.and_then(|enc_report| {
-                let dec_report = enc_report.decrypt(key_registry.as_ref()).map_err(Into::<Error>::into);
-                let unique_tag = UniqueTag::from_unique_bytes(&enc_report);
-                dec_report.map(|dec_report1| (dec_report1, unique_tag))
-            })
-        })
-        .take(sz);
-
-    let (decrypted_reports, resharded_tags) =
-        reshard_aad(ctx.narrow(&HybridStep::ReshardByTag), seq_join(ctx.active_work(), stream), |ctx, _, tag| tag.shard_picker(ctx.shard_count())).await?;
-
-    let mut unique_encrypted_hybrid_reports = UniqueTagValidator::new(resharded_tags.len());
-    unique_encrypted_hybrid_reports.check_duplicates(&resharded_tags)?;
-    Ok((decrypted_reports.len(), resharded_tags.iter().map(UniqueBytes::unique_bytes).collect()))
-}
-
-struct RunU {
-    outcomes: Outcomes<(usize, Vec<Tag>)>,
-    timed_out: bool,
-}
-
-struct RunQ {
-    outcomes: Outcomes<Vec<(u128, u128)>>,
-    timed_out: bool,
-    mpc_sent: BTreeMap<(usize, usize), Vec<String>>,
-    elapsed: Duration,
-}
-
-fn buffers(case: &Case, enc: &Encrypted) -> Vec<Vec<Vec<u8>>> {
-    (0..3).map(|h| case.layout.iter().map(|l| l.iter().flat_map(|r| enc.bytes[h][*r].iter().copied()).collect()).collect()).collect()
-}
-
-fn world_config(case: &Case, net: &Arc<Mutex<Net>>) -> TestWorldConfig {
-    let mut wc = TestWorldConfig::default();
-    wc.seed = case.world_seed;
-    wc.stream_interceptor = interceptor(Arc::clone(net));
-    wc.timeout = None;
-    if case.active != 0 {
-        wc.gateway_config.active = (case.active as usize).try_into().unwrap();
-    }
-    wc
-}
-
-async fn run_uniqueness_in<const N: usize>(case: &Case, enc: &Encrypted) -> RunU {
-    let net = Arc::new(Mutex::new(Net::default()));
-    let world = TestWorld::<WithShards<N>>::with_shards(&world_config(case, &net));
-    let bufs = buffers(case, enc);
-    let mut futs = vec![];
-    for (h, (hc, hb)) in world.malicious_contexts().into_iter().zip(bufs).enumerate() {
-        for (s, (ctx, buf)) in hc.into_iter().zip(hb).enumerate() {
-            let (chunk, delays) = case.chunking[h][s].clone();
-            let input = body(buf, chunk, &delays);
-            let qs = QuerySize::try_from(case.query_sizes[s]).unwrap();
-            futs.push((h, s, uniqueness_path(ctx, Arc::clone(&enc.registry), qs, input)));
-        }
-    }
-    let (outcomes, timed_out) = drive_until(futs, N, case.timeout, &|_| false).await;
-    let _ = catch(move || drop(world));
-    RunU { outcomes, timed_out }
-}
-
-async fn run_query_in<const N: usize>(case: &Case, enc: &Encrypted, expect_fail: &[BTreeSet<usize>]) -> RunQ {
-    let net = Arc::new(Mutex::new(Net::default()));
-    let t0 = std::time::Instant::now();
-    let world = TestWorld::<WithShards<N>>::with_shards(&world_config(case, &net));
-    let bufs = buffers(case, enc);
-    let mut futs = vec![];
-    for (h, (hc, hb)) in world.malicious_contexts().into_iter().zip(bufs).enumerate() {
-        for (s, (ctx, buf)) in hc.into_iter().zip(hb).enumerate() {
-            let (chunk, delays) = case.chunking[h][s].clone();
-            let input = body(buf, chunk, &delays);
-            let qs = QuerySize::try_from(case.query_sizes[s]).unwrap();
-            let registry = Arc::clone(&enc.registry);
-            futs.push((h, s, async move {
-                let query_params = HybridQueryParams { with_dp: 0, ..Default::default() };
-                let r = HybridQuery::<_, BA32, KeyRegistry<KeyPair>>::new(query_params, registry).execute(ctx, qs, input).await?;
-                Ok::<_, Error>(r.iter().map(|s| (s.left().as_u128(), s.right().as_u128())).collect::<Vec<(u128, u128)>>())
-            }));
-        }
-    }
-    // with duplicates: stop as soon as every shard that must reject has returned (its siblings
-    // wait for it forever); without: run to completion
-    let any_expected = expect_fail.iter().any(|e| !e.is_empty());
-    let done = |o: &Outcomes<Vec<(u128, u128)>>| any_expected && (0..3).all(|h| expect_fail[h].iter().all(|d| o[h][*d].is_some()));
-    let (outcomes, timed_out) = drive_until(futs, N, case.timeout, &done).await;
-    let elapsed = t0.elapsed();
-    let _ = catch(move || drop(world));
-    let mpc_sent = net.lock().unwrap().mpc_sent.clone();
-    RunQ { outcomes, timed_out, mpc_sent, elapsed }
-}
-
-
-/// A case whose futures never yield (a busy loop inside the code under test) cannot be ended by
-/// the tokio timeout; this thread ends the process with the "inconclusive" status instead of
-/// leaving it to the outer watchdog of ./check.
-struct Watchdog {
-    _tx: std::sync::mpsc::Sender<()>,
-}
-
-fn watchdog(limit: Duration, what: String) -> Watchdog {
-    let (tx, rx) = std::sync::mpsc::channel::<()>();
-    std::thread::spawn(move || {
-        if let Err(std::sync::mpsc::RecvTimeoutError::Timeout) = rx.recv_timeout(limit) {
-            eprintln!("[verif] a case did not return within {limit:?} although its timeout is shorter (future that never yields?) - inconclusive: {what}");
-            std::process::exit(2);
-        }
-    });
-    Watchdog { _tx: tx }
-}
-
-macro_rules! by_shards {
-    ($case:expr, $f:ident ( $($arg:expr),* )) => {{
-        let case: &Case = $case;
-        let _wd = watchdog(case.timeout * 2 + Duration::from_secs(120), case.json().to_string());
-        macro_rules! with {
-            ($s:literal) => {{
-                let fut = $f::<$s>($($arg),*);
-                if case.workers == 0 { block_on(fut) } else { block_on_mt(case.workers, fut) }
-            }};
-        }
-        match case.shards {
-            1 => with!(1),
-            2 => with!(2),
-            3 => with!(3),
-            _ => with!(5),
-        }
-    }};
-}
-
-// ------------------------------------------------------------------------------------------
-// generator
-// ------------------------------------------------------------------------------------------
-
-#[derive(Clone, Copy, PartialEq, Eq)]
-enum Dups {
-    None,
-    Some,
-    Either,
-}
-
-fn gen_rows(src: &mut Src<'_>, n: usize, want_pairs: bool) -> Vec<Row> {
-    // match keys from a small pool so that pairs, singles and triples all occur
-    let mut rows = vec![];
-    let mut k = 0u64;
-    while rows.len() < n {
-        let mk = 0x1_0000 + k;
-        k += 1;
-        let left = n - rows.len();
-        let count = if want_pairs && rows.is_empty() { 2.min(left) } else { [2usize, 2, 1, 2, 3, 2][src.idx(6)].min(left) };
-        for j in 0..count {
-            let conv = match src.below(3) {
-                0 => j % 2 == 1,
-                1 => true,
-                _ => src.bool(),
-            };
-            rows.push(if conv { Row { mk, kind: RowKind::Conversion, payload: 1 + src.below(7) as u8 } } else { Row { mk, kind: RowKind::Impression, payload: src.below(256) as u8 } });
-        }
-    }
-    let p = src.perm(rows.len());
-    p.into_iter().map(|i| rows[i]).collect()
-}
-
-struct Generated {
-    case: Case,
-    labels: Vec<String>,
-}
-
-fn gen_case(env: &Env, src: &mut Src<'_>, path: Path, dups: Dups) -> Generated {
-    let mut labels = vec![];
-    let whole = path == Path::Query;
-    let shards = src.pick(&[2usize, 3, 5, 1, 2, 3, 5, 2]);
-    let max = if env.thorough() { 200 } else { 60 };
-    let n = match (whole && dups == Dups::None, src.below(8)) {
-        (true, _) => src.urange(shards.max(4), 24),
-        (false, 0) => shards.max(1),
-        (false, 1) => src.urange(shards, shards + 3),
-        (false, 2 | 3) => src.urange(shards, 12.max(shards)),
-        _ => src.urange(shards, max),
-    };
-    let rows = gen_rows(src, n, whole);
-    // placement of the originals
-    let mode = src.below(4);
-    let mut assign: Vec<usize> = (0..n)
-        .map(|i| match mode {
-            0 => i % shards,
-            1 => src.idx(shards),
-            2 => {
-                if src.chance(1, 6) {
-                    src.idx(shards)
-                } else {
-                    0
-                }
-            }
-            _ => (i * shards) / n.max(1),
-        })
-        .collect();
-    labels.push(format!("placement:{}", ["round-robin", "random", "skewed", "blocks"][mode as usize]));
-    if whole {
-        // `hybrid_protocol` returns early on an empty shard input and its siblings then wait for
-        // it forever (C01 known finding empty-shard-hang): whole-query cases give every shard input
-        for s in 0..shards {
-            if !assign.iter().any(|a| *a == s) {
-                let mut cnt = vec![0usize; shards];
-                for a in &assign {
-                    cnt[*a] += 1;
-                }
-                let big = (0..shards).max_by_key(|s| cnt[*s]).unwrap();
-                let pos = assign.iter().position(|a| *a == big).unwrap();
-                assign[pos] = s;
-            }
-        }
-    }
-    let mut layout: Vec<Vec<usize>> = vec![vec![]; shards];
-    for (r, s) in assign.iter().enumerate() {
-        layout[*s].push(r);
-    }
-    // duplicate sets
-    let with_dups = match dups {
-        Dups::None => false,
-        Dups::Some => true,
-        Dups::Either => src.chance(3, 5),
-    };
-    if with_dups {
-        // (number of pairs, number of triples)
-        let (pairs, triples) = match src.below(6) {
-            0 | 1 | 2 => (1, 0),
-            3 => (src.urange(2, 4), 0),
-            4 => (0, 1),
-            _ => (src.urange(1, 2), 1),
-        };
-        let sets = (pairs + triples).min(n);
-        let chosen: Vec<usize> = src.perm(n).into_iter().take(sets).collect();
-        let mut same = false;
-        let mut diff = false;
-        let mut adjacent = false;
-        let mut apart = false;
-        for (k, r) in chosen.iter().enumerate() {
-            let extra = if k < triples { 2 } else { 1 };
-            for _ in 0..extra {
-                let home = assign[*r];
-                let target = match src.below(3) {
-                    0 => home,
-                    1 => (home + 1 + src.idx(shards.max(2) - 1)) % shards,
-                    _ => src.idx(shards),
-                };
-                if target == home {
-                    same = true;
-                } else {
-                    diff = true;
-                }
-                let l = &mut layout[target];
-                let at = match src.below(4) {
-                    0 => 0,
-                    1 => l.len(),
-                    2 => l.iter().position(|x| x == r).map_or(l.len(), |p| p + 1), // right after the original
-                    _ => src.idx(l.len() + 1),
-                };
-                l.insert(at, *r);
-                let pos: Vec<usize> = l.iter().enumerate().filter(|(_, x)| *x == r).map(|(i, _)| i).collect();
-                if pos.len() >= 2 {
-                    if pos.windows(2).any(|w| w[1] == w[0] + 1) {
-                        adjacent = true;
-                    } else {
-                        apart = true;
-                    }
-                }
-            }
-        }
-        labels.push(format!("dup-sets:{}", match sets { 1 => "1", 2 => "2", _ => "3+" }));
-        if triples > 0 {
-            labels.push("has-triple".into());
-        }
-        if same {
-            labels.push("copies:in-the-same-shard-input".into());
-        }
-        if diff {
-            labels.push("copies:in-different-shard-inputs".into());
-        }
-        if adjacent {
-            labels.push("copies:adjacent".into());
-        }
-        if apart {
-            labels.push("copies:same-input-not-adjacent".into());
-        }
-    } else {
-        labels.push("dup-sets:0".into());
-    }
-    let total: usize = layout.iter().map(Vec::len).sum();
-    // per-shard query size: the exact number of records, or an upper bound (the runner truncates
-    // the input stream to `query_size` records; a stream may be shorter)
-    let qmode = src.below(3);
-    let query_sizes: Vec<usize> = layout
-        .iter()
-        .map(|l| match qmode {
-            0 => l.len().max(1),
-            1 => total.max(1),
-            _ => l.len() + 1 + src.idx(5),
-        })
-        .collect();
-    labels.push(format!("query-size:{}", ["exact", "query-total", "overstated"][qmode as usize]));
-    if layout.iter().any(Vec::is_empty) {
-        labels.push("empty-shard-input".into());
-    }
-    let workers = src.pick(&[0usize, 0, 2, 4]);
-    let active = if whole { 0 } else { src.pick(&[0u32, 8, 32, 256, 0]) };
-    let chunking: Vec<Vec<(usize, Vec<u8>)>> = (0..3)
-        .map(|_| {
-            (0..shards)
-                .map(|_| {
-                    let chunk = src.pick(&[0usize, 0, 7, 64, 153, 1000]);
-                    let delays = if src.chance(1, 2) { (0..3).map(|_| src.below(4) as u8).collect() } else { vec![] };
-                    (chunk, delays)
-                })
-                .collect()
-        })
-        .collect();
-    labels.push(format!("shards:{shards}"));
-    labels.push(format!("workers:{workers}"));
-    labels.push(format!("active:{}", if active == 0 { "default".into() } else { active.to_string() }));
-    labels.push(format!("reports:{}", match total { 0..=5 => "1-5", 6..=19 => "6-19", 20..=60 => "20-60", _ => "61+" }));
-    if chunking.iter().flatten().any(|(c, _)| *c != 0) {
-        labels.push("input:chunked".into());
-    }
-    let case = Case {
-        shards,
-        rows,
-        layout,
-        query_sizes,
-        workers,
-        active,
-        chunking,
-        world_seed: src.seed(),
-        enc_seed: src.seed(),
-        timeout: Duration::from_secs(if whole && !with_dups { 240 } else { 30 }),
-    };
-    Generated { case, labels }
-}
-
-/// per helper: shards that receive two or more copies of one of that helper's ciphertexts
-fn expected_failures(case: &Case, enc: &Encrypted) -> Vec<BTreeSet<usize>> {
-    let dups = case.dup_reports();
-    (0..3).map(|h| dups.iter().map(|r| enc.routed[h][*r]).collect()).collect()
-}
-
-fn routing_labels(case: &Case, enc: &Encrypted, labels: &mut Vec<String>) {
-    labels.push(if enc.tag_collisions == 0 { "tags-of-distinct-reports:all-distinct".into() } else { "tags-of-distinct-reports:COLLISION".to_string() });
-    let dups = case.dup_reports();
-    let homes = |r: usize| -> BTreeSet<usize> { (0..case.shards).filter(|s| case.layout[*s].contains(&r)).collect() };
-    let (mut leader, mut non_leader, mut via_third, mut stays) = (false, false, false, false);
-    for r in &dups {
-        for h in 0..3 {
-            let d = enc.routed[h][*r];
-            if d == 0 {
-                leader = true;
-            } else {
-                non_leader = true;
-            }
-            if homes(*r).contains(&d) {
-                stays = true;
-            } else {
-                via_third = true;
-            }
-        }
-    }
-    if leader {
-        labels.push("routed-to:leader-shard".into());
-    }
-    if non_leader {
-        labels.push("routed-to:non-leader-shard".into());
-    }
-    if via_third {
-        labels.push("routed-to:shard-holding-no-copy".into());
-    }
-    if stays {
-        labels.push("routed-to:shard-holding-a-copy".into());
-    }
-    if dups.iter().any(|r| (0..3).map(|h| enc.routed[h][*r]).collect::<BTreeSet<_>>().len() > 1) {
-        labels.push("routed-differently-on-different-helpers".into());
-    }
-}
-
-fn nontrivial(case: &Case) -> bool {
-    let dups = case.dup_reports();
-    let two_sources = dups.iter().any(|r| (0..case.shards).filter(|s| case.layout[*s].contains(r)).count() >= 2);
-    two_sources || dups.len() >= 2
-}
-
-// ------------------------------------------------------------------------------------------
-// sub-checks
-// ------------------------------------------------------------------------------------------
-
-fn uniqueness(env: &Env, src: &mut Src<'_>) -> CaseResult {
-    let Generated { case, mut labels } = gen_case(env, src, Path::Uniqueness, Dups::Either);
-    let enc = match encrypt(&case) {
-        Ok(e) => e,
-        Err(e) => return Err(CaseErr::Reject(e)),
-    };
-    let cj = case.json();
-    routing_labels(&case, &enc, &mut labels);
-    let run: RunU = by_shards!(&case, run_uniqueness_in(&case, &enc));
-    if run.timed_out {
-        return Ok(CaseOk::new(false, &0u8, Value::Null).label("inconclusive:timeout").labels(labels));
-    }
-    let expect = expected_failures(&case, &enc);
-    for h in 0..3 {
-        // tags that must arrive at each shard of this helper
-        let mut routed: Vec<Vec<Tag>> = vec![vec![]; case.shards];
-        for l in &case.layout {
-            for r in l {
-                routed[enc.routed[h][*r]].push(enc.tags[h][*r]);
-            }
-        }
-        for d in 0..case.shards {
-            let o = run.outcomes[h][d].as_ref().expect("all futures finished");
-            let must_fail = expect[h].contains(&d);
-            match o {
-                Out::Panic { loc, msg } => return Err(violation(format!("panic:{}", loc_file(loc)), format!("helper {h} shard {d} panicked at {loc}: {msg}"), cj)),
-                Out::Err { .. } if o.is_dup() => {
-                    if !must_fail {
-                        return Err(violation("distinct-reports-rejected", format!("helper {h} shard {d} returned {} although the {} encrypted reports whose tags are routed to it are pairwise distinct", o.describe(), routed[d].len()), cj));
-                    }
-                }
-                Out::Err { variant, display } => {
-                    return Err(violation(format!("unexpected-error:{variant}"), format!("helper {h} shard {d}: {display}"), cj));
-                }
-                Out::Ok((kept, tags)) => {
-                    if must_fail {
-                        return Err(violation("duplicate-not-rejected", format!("helper {h} shard {d} passed the uniqueness check although two copies of the same encrypted report are routed to it ({} tags routed, it holds {})", routed[d].len(), tags.len()), cj));
-                    }
-                    // the check can only see what resharding hands it: all tags routed here must have
-                    // arrived (as a multiset), and the decrypted reports stay where they were submitted
-                    let mut a = tags.clone();
-                    let mut b = routed[d].clone();
-                    a.sort();
-                    b.sort();
-                    if a != b {
-                        return Err(violation("reshard-aad-tags-incomplete", format!("helper {h} shard {d} holds {} tags after reshard_aad, {} are routed to it by UniqueTag::shard_picker (multisets differ)", a.len(), b.len()), cj));
-                    }
-                    if *kept != case.layout[d].len() {
-                        return Err(violation("reshard-aad-reports-lost", format!("helper {h} shard {d} kept {kept} decrypted reports of {} submitted", case.layout[d].len()), cj));
-                    }
-                }
-            }
-        }
-    }
-    let nt = nontrivial(&case);
-    Ok(CaseOk { nontrivial: nt, digest: digest(&(&case.layout, case.shards, case.enc_seed)), labels, sample: json!({"shards": case.shards, "layout": case.layout, "expected_failing_shards": expect}) })
-}
-
-fn query_duplicates(env: &Env, src: &mut Src<'_>) -> CaseResult {
-    let Generated { case, mut labels } = gen_case(env, src, Path::Query, Dups::Some);
-    let enc = match encrypt(&case) {
-        Ok(e) => e,
-        Err(e) => return Err(CaseErr::Reject(e)),
-    };
-    let cj = case.json();
-    routing_labels(&case, &enc, &mut labels);
-    let expect = expected_failures(&case, &enc);
-    let run: RunQ = by_shards!(&case, run_query_in(&case, &enc, &expect));
-    let cj = json!({"case": cj, "expected_failing_shards": expect, "outcomes": summary(&run.outcomes)});
-    // no helper-shard may complete
-    for h in 0..3 {
-        for d in 0..case.shards {
-            match &run.outcomes[h][d] {
-                Some(Out::Ok(v)) => {
-                    return Err(violation("query-completed-despite-duplicate", format!("helper {h} shard {d} returned Ok({} shares) although the query input contains a duplicated report", v.len()), cj));
-                }
-                Some(o) if o.is_dup() && !expect[h].contains(&d) => {
-                    return Err(violation("duplicate-reported-on-wrong-shard", format!("helper {h} shard {d} returned {} but no duplicated tag is routed to it", o.describe()), cj));
-                }
-                _ => {}
-            }
-        }
-    }
-    let mut missing = false;
-    for h in 0..3 {
-        for d in &expect[h] {
-            match &run.outcomes[h][*d] {
-                Some(o) if o.is_dup() => {
-                    // before attribution starts: this helper-shard has not sent anything to another helper
-                    if let Some(g) = run.mpc_sent.get(&(h, *d)) {
-                        return Err(violation("duplicate-detected-after-attribution-started", format!("helper {h} shard {d} returned {} but had already sent MPC data (first gates: {g:?})", o.describe()), cj));
-                    }
-                }
-                Some(Out::Panic { loc, msg }) => return Err(violation(format!("panic:{}", loc_file(loc)), format!("helper {h} shard {d} panicked at {loc}: {msg}"), cj)),
-                Some(o) => {
-                    return Err(violation("duplicate-not-rejected", format!("helper {h} shard {d} must fail with DuplicateBytes (two copies of one encrypted report are routed to it) but returned {}", o.describe()), cj));
-                }
-                None => missing = true,
-            }
-        }
-    }
-    if missing {
-        // only possible through the per-case timeout
-        return Ok(CaseOk::new(false, &0u8, Value::Null).label(if run.timed_out { "inconclusive:timeout" } else { "inconclusive:cancelled" }).labels(labels));
-    }
-    let others_pending = run.outcomes.iter().flatten().filter(|o| o.is_none()).count();
-    labels.push(if others_pending > 0 { "siblings:still-running-when-stopped".into() } else { "siblings:all-returned".to_string() });
-    Ok(CaseOk { nontrivial: nontrivial(&case), digest: digest(&(&case.layout, case.shards, case.enc_seed)), labels, sample: json!({"shards": case.shards, "layout": case.layout, "expected_failing_shards": expect, "elapsed_ms": run.elapsed.as_millis() as u64}) })
-}
-
-fn query_execute_honest(env: &Env, src: &mut Src<'_>) -> CaseResult {
-    let Generated { case, mut labels } = gen_case(env, src, Path::Query, Dups::None);
-    let enc = match encrypt(&case) {
-        Ok(e) => e,
-        Err(e) => return Err(CaseErr::Reject(e)),
-    };
-    let cj = case.json();
-    routing_labels(&case, &enc, &mut labels);
-    let (want, pairs) = reference_histogram(&case.rows, 32);
-    let none: Vec<BTreeSet<usize>> = vec![BTreeSet::new(); 3];
-    let run: RunQ = by_shards!(&case, run_query_in(&case, &enc, &none));
-    let cj = json!({"case": cj, "outcomes": summary(&run.outcomes)});
-    for h in 0..3 {
-        for d in 0..case.shards {
-            match &run.outcomes[h][d] {
-                Some(o) if o.is_dup() => return Err(violation("distinct-reports-rejected", format!("helper {h} shard {d} returned {} on pairwise distinct reports", o.describe()), cj)),
-                Some(Out::Err { variant, display }) if variant == "ZeroRecords" => {
-                    // C01's listed finding (a stage left with zero rows on a shard), not a C11 matter
-                    if env.is_known("C01", "zero-records") {
-                        note_known("C01:zero-records");
-                        labels.push("c01-known:zero-records".into());
-                        return Ok(CaseOk::new(false, &0u8, Value::Null).labels(labels));
-                    }
-                    return Err(violation("honest-error:ZeroRecords", format!("helper {h} shard {d}: {display}"), cj));
-                }
-                Some(Out::Err { variant, display }) => return Err(violation(format!("honest-error:{variant}"), format!("helper {h} shard {d} failed an honest query: {display}"), cj)),
-                Some(Out::Panic { loc, msg }) => return Err(violation(format!("panic:{}", loc_file(loc)), format!("helper {h} shard {d} panicked at {loc}: {msg}"), cj)),
-                Some(Out::Ok(_)) => {}
-                None => {
-                    labels.push("inconclusive:timeout".into());
-                    return Ok(CaseOk::new(false, &0u8, Value::Null).labels(labels));
-                }
-            }
-        }
-    }
-    let get = |h: usize, d: usize| match &run.outcomes[h][d] {
-        Some(Out::Ok(v)) => v,
-        _ => unreachable!(),
-    };
-    for d in 1..case.shards {
-        match reconstruct3(get(0, d), get(1, d), get(2, d), u128::MAX) {
-            Ok(r) if r.iter().all(|v| *v == 0) => {}
-            Ok(_) => return Err(violation("follower-output", format!("follower shard {d} returned a non-zero output"), cj)),
-            Err(e) => return Err(violation("bad-output-sharing", format!("follower shard {d}: {e}"), cj)),
-        }
-    }
-    match reconstruct3(get(0, 0), get(1, 0), get(2, 0), u128::MAX) {
-        Ok(got) => {
-            if got != want {
-                let diff: Vec<_> = (0..256).filter(|i| got.get(*i) != want.get(*i)).take(6).map(|i| json!({"bucket": i, "got": got.get(i).map(|v| v.to_string()), "want": want[i].to_string()})).collect();
-                return Err(violation("wrong-histogram", format!("histogram of Query::execute differs from the plaintext attribution: {}", serde_json::to_string(&diff).unwrap()), cj));
-            }
-        }
-        Err(e) => return Err(violation("bad-output-sharing", e, cj)),
-    }
-    labels.push(format!("pairs:{}", match pairs { 0 => "0", 1..=3 => "1-3", _ => "4+" }));
-    Ok(CaseOk { nontrivial: pairs >= 1, digest: digest(&(&case.rows, &case.layout, case.shards)), labels, sample: json!({"shards": case.shards, "n_reports": case.rows.len(), "pairs": pairs, "elapsed_ms": run.elapsed.as_millis() as u64}) })
-}
-
-pub fn subs(_env: &Env) -> Vec<Sub> {
-    vec![
-        Sub::random(
-            "uniqueness_path", 600, 2400, 40_000, uniqueness,
-            "n distinct HPKE-encrypted reports (tags asserted pairwise distinct per helper), shards {1,2,3,5}, 1..60 reports (thorough ..200), placement {round-robin, random, skewed, blocks}; 0 / 1 pair / several pairs / a triple / pairs+triple of identical bytes inserted into a generated shard's input (same shard as the original, another shard, random) at a generated position (first, last, adjacent to the original, random), identically on the three helpers; per-shard query size {exact, query total, overstated}; input body chunking/Pending pattern per helper-shard, gateway active {default,8,32,256}, runtime {current-thread, 2/4 workers}; runs the decrypt -> reshard_aad(ReshardByTag) -> UniqueTagValidator::check_duplicates statements of Query::execute on the sharded malicious contexts; oracle: helper h shard d returns Err(DuplicateBytes) iff two copies of one of h's ciphertexts are routed to d by UniqueTag::shard_picker; otherwise Ok, holding exactly the routed tags and all its decrypted reports; non-trivial = copies of a set in two different shard inputs, or >= 2 duplicate sets",
-        )
-        .shrink_iters(40),
-        Sub::random(
-            "query_duplicates", 600, 240, 6000, query_duplicates,
-            "same generator, always >= 1 duplicate set, every shard input non-empty, through the whole Query::execute on TestWorld<WithShards<S>>::malicious_contexts(); oracle: on each helper every shard a duplicated tag is routed to returns Err(DuplicateBytes) without having sent any MPC message, no helper-shard returns Ok, DuplicateBytes only on routed shards; the case is stopped when all routed shards have returned (siblings wait for them forever)",
-        )
-        .shrink_iters(6),
-        Sub::random(
-            "query_execute_honest", 600, 20, 320, query_execute_honest,
-            "4..24 pairwise distinct reports (match-key pool with pairs, singles, triples), every shard input non-empty, whole Query::execute (default padding, no DP); oracle: no DuplicateBytes, all helper-shards Ok, follower shards output nothing, leader histogram = independent plaintext attribution; non-trivial = >= 1 attributed pair",
-        )
-        .shrink_iters(0)
-        .streams(10),
-    ]
-}
-
-#[test]
-fn run() {
-    let env = Env::from_env();
-    let s = subs(&env);
-    crate::ipa_verif::common::run_main(env, LEVEL, s)
-}
+// H5: hook body inside `crate::query::runner` (a private module, so C11 has its own libtest entry
+// here). The body needs the tokio-based MPC world runner; it is not built under shuttle or
+// compact gates.
+#[cfg(all(not(feature = "shuttle"), descriptive_gate))]
+include!(concat!(env!("IPA_VERIF_DIR"), "/h5_runner_body.rs"));
